@@ -60,7 +60,7 @@ RoundTrip == /\ c <= N
              /\ LET ev == Trace[c] v == Verdict14(ev) IN
                 /\ (v = "ok" \/ Len(TLCGet(1)) >= MaxBad
                     \/ TLCSet(1, Append(TLCGet(1), [i |-> c, kind |-> v, form |-> ev.form, cell |-> ev.cell,
-                                                     tri |-> IF ev.k = "eq" THEN Triple(ev.ast) ELSE <<"-", "-", "-">>,
+                                                     tri |-> IF ev.k = "eq" THEN (IF "wrap" \in DOMAIN ev.case THEN Triple(ev.ast.l) ELSE Triple(ev.ast)) ELSE <<"-", "-", "-">>,
                                                      ploc |-> IF ev.k = "path" THEN PathLocus(ev.case) ELSE "-",
                                                      model |-> ModelSays(ev)])))
                 /\ (v = "ok" \/ TLCSet(3, TLCGet(3) + 1))
